@@ -95,7 +95,7 @@ func (e *Env) recordUpdates() []upd {
 
 func c10(e *Env) {
 	r := e.R
-	r.Explanation = "Field-by-field value-flow of the audit record built after a task ran (the function in Execute's call tree that calls NewAuditInfo), resolved through the calling context up to Task.Execute: (R1) Command ← Task.Command (the very field the runner executes), ProcessName ← the task's process name, Params ← Task.Params, StartTime/FinishTime ← two time.Now() results taken on all paths before resp. after the command, ExecTimeNS ← finish.Sub(start) in that orientation, OutFiles[port] ← FileIP.Path for every out-IP, Upstream[Path(in)] ← in.AuditInfo() for every in-IP and for every member of a joined sub-stream (unconditional, complete loops), ID ← random id in NewAuditInfo; (R2) for every out-IP: SetAuditInfo(record), tags of every in-IP merged, record written to <Path>.audit.json (complete loops); (R3) marshal/write errors are fatal (C09.R2, re-evaluated); (R4) a record's Tags map is only ever a fresh map (never another record's map), so tags attached on one branch cannot leak into sibling or upstream records; task tags are derived from the tags of every in-IP."
+	r.Explanation = "Field-by-field value-flow of the audit record built after a task ran (the function in Execute's call tree that calls NewAuditInfo), resolved through the calling context up to Task.Execute: (R1) Command ← Task.Command (the very field the runner executes), ProcessName ← the task's process name, Params ← Task.Params, StartTime/FinishTime ← two time.Now() results taken on all paths before resp. after the command, ExecTimeNS ← finish.Sub(start) in that orientation, OutFiles[port] ← FileIP.Path for every out-IP, Upstream[Path(in)] ← in.AuditInfo() for every in-IP and for every member of a joined sub-stream (unconditional, complete loops), ID ← random id in NewAuditInfo; (R2) for every out-IP: SetAuditInfo(record), tags of every in-IP merged, record written to <Path>.audit.json (complete loops); (R3) marshal/write errors are fatal (C09.R2, re-evaluated); (R4) a record's Tags map is only ever a fresh map (never another record's map), so tags attached on one branch cannot leak into sibling or upstream records; task tags are derived from the tags of every in-IP; (R5) no update of the record is reachable from a write of the record (complete before the first output's audit file is written)."
 	r.NotDecided = "that the JSON tree of a concrete run equals its true lineage; tags of sub-stream members are not merged into the record's own Tags (they may legitimately conflict) - noted, not flagged; the audit link of a streaming consumer that finishes before its producer (a schedule-dependent runtime fact)."
 	a := e.anchors()
 	if !a.ok() {
@@ -392,6 +392,27 @@ func c10(e *Env) {
 	}
 	// ---- R4 tags
 	e.c10Tags()
+	// ---- R5 the record is complete before it is serialised for the first output
+	ob5 := r.Ob("R5", "audit-builder:complete≺first-write", "every field / map entry of the task's record is set before the record is written for any output: no update of the record is reachable from an audit-file write (all outputs of a task share one record, so each of their audit files must show all of it)")
+	isMarshal := func(n *core.Node) bool {
+		return n.Kind != core.KAfter && !inCallback(n) && (n.IsCallTo("encoding/json.MarshalIndent", "encoding/json.Marshal", "(*encoding/json.Encoder).Encode") || (isWriteFile(n) && isCallSym(e.argSym(n, 0), fnAuditPath)))
+	}
+	nW := 0
+	for _, w := range g.Select(isMarshal) {
+		nW++
+		reach := g.ReachableFrom(w, nil)
+		bad := ""
+		for _, u := range upds {
+			if reach[u.n] {
+				bad = "AuditInfo." + u.field + " at " + g.Where(u.n)
+				break
+			}
+		}
+		ob5.Check(bad == "", g.Where(w), "no record update after this write", "the record is still updated ("+bad+") after it has been written for an output: the audit file of an earlier output lacks what is added later (e.g. OutFiles entries of its sibling outputs), and which file is incomplete depends on map iteration order")
+	}
+	if nW == 0 {
+		ob5.Unknown("-", "no marshal/write of the audit record found")
+	}
 }
 
 // fieldBaseType: the named struct type whose field is loaded by v.
